@@ -431,6 +431,24 @@ def _single_state_edges(g, x, F):
         raise CheckError('anchor: ReaderState::Single')
     single = str(names.index('Single'))
     out = set()
+
+    def _state_val(v):
+        v = g.strip(v)
+        if v[0] == 'agg' and 'ReaderState::' in v[2]:
+            return True
+        if v[0] == 'call' and re.search(r'Cell(::<.*>)?::get$', g.call_name(v[1]) or '') and \
+                any('Reader.state' in p for p in g.locpaths(g.call_args(v[1])[0])):
+            return True
+        return v[0] == 'fld' and v[2].endswith('ReadAttempt.state')
+
+    # `state == ReaderState::Single` (derived PartialEq: a comparison of discriminants) next to `match state {..}`
+    for t_ in x.tests(('Eq',)):
+        for (a_, b_) in ((t_.a, t_.b), (t_.b, t_.a)):
+            if a_[0] == 'discr' and b_[0] == 'c' and str(b_[1]) == single:
+                inner = g.strip(a_[1])
+                vals = [inner] if inner[0] != 'phi' else list(inner[1])
+                if vals and all(_state_val(v_) for v_ in vals):
+                    out.update(t_.true)
     for sid in x.switches():
         e = g.strip(g.switch_expr(sid))
         if e[0] == 'discr':
